@@ -40,8 +40,9 @@ class Hint:
        'loop:N:after'         right after loop N's closing brace
        'before:REGEX'/'after:REGEX'  before / after the (occurrence-th) match of REGEX
     """
-    def __init__(self, anchor, text, supports=None, occurrence=0, all=False):
+    def __init__(self, anchor, text, supports=None, occurrence=0, all=False, optional=False):
         self.anchor, self.text, self.supports, self.occurrence, self.all = anchor, text, supports, occurrence, all
+        self.optional = optional
 
 
 class Rule:
@@ -427,6 +428,8 @@ def _fn_edits(spec, item, src, m, edits, rule_counts, clauses, top):
             where_, rx = a.split(":", 1)
             ms = [x for x in re.compile(rx, re.S).finditer(src, item.body_open, item.body_close) if not in_skip(x.start())]
             ms = [x for x in ms if m[x.start()] == src[x.start()] or src[x.start()].isspace()]
+            if (not ms or (not h.all and h.occurrence >= len(ms))) and h.optional:
+                continue
             if not ms or (not h.all and h.occurrence >= len(ms)):
                 raise GenError("anchor lost: %s (occurrence %d) in %s" % (a, h.occurrence, spec.qual))
             sel = ms if h.all else [ms[h.occurrence]]
